@@ -145,7 +145,7 @@ func runC05(w *World, r *Report, tier string) {
 						if !strings.HasSuffix(w.callKey(c), "Client.Send") {
 							continue
 						}
-						if mi, ok := c.Call.Args[len(c.Call.Args)-1].(*ssa.MakeInterface); ok && w.typeStr(mi.X.Type()) == "stanza.SMAnswer" {
+						if mi, ok := c.Call.Args[len(c.Call.Args)-1].(*ssa.MakeInterface); ok && strings.TrimPrefix(w.typeStr(mi.X.Type()), "*") == "stanza.SMAnswer" {
 							nAns++
 						}
 					}
